@@ -43,7 +43,7 @@ def make_input(path, d, sibling):
     """materialise the descriptor with raw h5py (independent of dclab's
     writer)"""
     import h5py
-    n = 1 if d["len"] == "one" else 25
+    n = {"one": 1, "large": 3001}.get(d["len"], 25)
     ids = list(range(1, n + 1))
     with h5py.File(path, "w") as h5:
         meta = {k: dict(v) for k, v in gen.META.items()
@@ -350,7 +350,9 @@ def main(tier, seed, replay=None):
     rep = findings.Reporter(PID, ev)
     ev.rule = ("CopierSpec enumerates every valid storage layout descriptor "
                "(contiguous/chunked x none/gzip/lzf/zstd1/zstd5/zstd9 x chunk "
-               "smaller/equal/larger than the data x one/many events/empty "
+               "smaller/equal/larger than the data x one/many/3001 events (3001: "
+               "HDF5 splits an unchunked destination into several chunks with "
+               "a remainder)/empty "
                "log x fixed/variable-length log strings) x every pipeline of "
                "1..2 tasks (compress, repack, repack stripping logs or "
                "basins, condense with/without ancillary features); the input "
